@@ -124,7 +124,7 @@ def main(argv):
         bad = [o for o in v.obligations if not o[1]]
         v.violation('obligation failed: %s' % bad[0][0], {'class': 'c05-obligation', 'broken': [list(b) for b in bad]}, no_failing_input=True)
 
-    gen_keys = ['decl', 'assign', 'compound_assign', 'ins', 'block', 'if', 'while', 'times', 'times_clobber', 'cond_goto', 'call',
+    gen_keys = ['ins_pseudo_args', 'ins_blob', 'sub_with_reserved_reg', 'reserved_reg_pseudo_call', 'anti_scratch_blob_or_mask', 'decl', 'assign', 'compound_assign', 'ins', 'block', 'if', 'while', 'times', 'times_clobber', 'cond_goto', 'call',
                 'anti_scratch_ins', 'binop', 'cast', 'switch', 'reg_raw', 'reg_alias', 'reg_other_sigil', 'reg_in_switch',
                 'local_read', 'local_in_switch', 'imm', 'assign_local', 'assign_reg']
     v.coverage.update({
